@@ -43,7 +43,7 @@ func (r *round1) Start() *Error {
 	idList := make([]string, 0)
 	for id, msg := range r.futureMessages {
 		idList = append(idList, id)
-		if err := r.Update(msg); err != nil {
+		if err := r.updateStored(msg); err != nil {
 			return err
 		}
 	}
@@ -55,6 +55,18 @@ func (r *round1) Start() *Error {
 
 	r.started = true
 	return nil
+}
+
+// updateStored handles one stored message the way baseParty.Update handles a live one:
+// a panic raised by a malformed message drops that message only, the others are still processed
+func (r *round1) updateStored(msg model.ConsensusMessage) (err *Error) {
+	defer func() {
+		if p := recover(); p != nil {
+			r.logger.Errorf("round1 drop stored message, id: %s, recover: %v", msg.GetMessageID(), p)
+			err = nil
+		}
+	}()
+	return r.Update(msg)
 }
 
 func (r *round1) Close() {
